@@ -20,6 +20,7 @@ type Itv struct {
 	lo, hi end
 	Int    bool // value is known to be integral
 	Bot    bool // empty (unreachable)
+	NZ     bool // value is known to be non-zero (a guard x != 0 on an interval that spans zero)
 }
 
 func ratInt(n int64) *big.Rat { return new(big.Rat).SetInt64(n) }
@@ -147,14 +148,23 @@ func (a Itv) Join(b Itv) Itv {
 	if b.Bot {
 		return a
 	}
-	return Itv{lo: minLo(a.lo, b.lo), hi: maxHi(a.hi, b.hi), Int: a.Int && b.Int}
+	return Itv{lo: minLo(a.lo, b.lo), hi: maxHi(a.hi, b.hi), Int: a.Int && b.Int, NZ: a.NonZero() && b.NonZero()}
 }
 
 func (a Itv) Meet(b Itv) Itv {
 	if a.Bot || b.Bot {
 		return Bottom()
 	}
-	r := Itv{lo: maxLo(a.lo, b.lo), hi: minHi(a.hi, b.hi), Int: a.Int || b.Int}
+	r := Itv{lo: maxLo(a.lo, b.lo), hi: minHi(a.hi, b.hi), Int: a.Int || b.Int, NZ: a.NZ || b.NZ}
+	if r.NZ {
+		// a zero endpoint is excluded
+		if r.lo.inf == 0 && r.lo.v.Sign() == 0 {
+			r.lo.open = true
+		}
+		if r.hi.inf == 0 && r.hi.v.Sign() == 0 {
+			r.hi.open = true
+		}
+	}
 	c := cmpEnd(r.lo, r.hi)
 	if c > 0 || (c == 0 && (r.lo.open || r.hi.open) && r.lo.inf == 0) {
 		return Bottom()
@@ -178,7 +188,7 @@ func (a Itv) LE0() bool { return a.Bot || (a.hi.inf == 0 && a.hi.v.Sign() <= 0) 
 func (a Itv) LT0() bool {
 	return a.Bot || (a.hi.inf == 0 && (a.hi.v.Sign() < 0 || (a.hi.v.Sign() == 0 && a.hi.open)))
 }
-func (a Itv) NonZero() bool { return a.GT0() || a.LT0() }
+func (a Itv) NonZero() bool { return a.NZ || a.GT0() || a.LT0() }
 
 // LEc: every value ≤ c ; GEc: every value ≥ c
 func (a Itv) LEc(c *big.Rat) bool { return a.Bot || (a.hi.inf == 0 && a.hi.v.Cmp(c) <= 0) }
@@ -209,7 +219,7 @@ func (a Itv) Neg() Itv {
 		}
 		return end{v: new(big.Rat).Neg(e.v), open: e.open}
 	}
-	return Itv{lo: n(a.hi), hi: n(a.lo), Int: a.Int}
+	return Itv{lo: n(a.hi), hi: n(a.lo), Int: a.Int, NZ: a.NZ}
 }
 
 func addEnd(a, b end) end {
@@ -265,7 +275,7 @@ func (a Itv) Mul(b Itv) Itv {
 		lo = minLo(lo, e)
 		hi = maxHi(hi, e)
 	}
-	return Itv{lo: lo, hi: hi, Int: a.Int && b.Int}
+	return Itv{lo: lo, hi: hi, Int: a.Int && b.Int, NZ: a.NonZero() && b.NonZero()}
 }
 
 // Inv is 1/a; defined only when a excludes zero, otherwise Top (the caller decides whether
@@ -276,6 +286,11 @@ func (a Itv) Inv() (Itv, bool) {
 	}
 	if !a.NonZero() {
 		return Top(), false
+	}
+	if !a.GT0() && !a.LT0() {
+		r := Top()
+		r.NZ = true
+		return r, true // non-zero but of unknown sign: defined, unbounded
 	}
 	inv := func(e end, towardZeroFromPos bool) end {
 		if e.inf != 0 {
@@ -395,5 +410,6 @@ func (a Itv) RefineNE0() Itv { // a != 0: only useful at a closed zero endpoint
 	if a.hi.inf == 0 && a.hi.v.Sign() == 0 {
 		a.hi.open = true
 	}
+	a.NZ = true
 	return a
 }
